@@ -31,6 +31,12 @@
    interpreted as a format" (every "%x" pair is consumed / expanded the way fmt does with a missing
    operand) must be REJECTED by TLC (R_RoundTrip violated).
 
+   KEY OF AN ENTRY.  Two jobs may share an inode under different source ids (sourceIDByStat mixes the
+   symlink name in: one file watched directly and through a symlink, the k8s layout); the case space
+   contains such tables and the round trip must hold: the key of an entry is the SOURCE ID
+   (mechanism M_KeyIsSourceId, TRUE = the code).  The mutant FALSE = "an inode must be unique too"
+   must be REJECTED by TLC.
+
    One behaviour = one table (kept in the variable t).  Export prints every table with the
    declaratively expected result (the table itself) and the transcription's prediction; the
    real save/load pair is executed on every exported table by the Go harness.                *)
@@ -40,6 +46,7 @@ CONSTANTS NameSyms,       \* name symbols: 1 'a'  2 ':'  3 ' '  4 '\n'  5 '-'  6
           MaxName1,       \* length bound of the first stream name
           MaxName2,       \* length bound of the second stream name
           Unconditional,  \* TRUE: check RoundTrip for every table (faithful: D8 counterexample expected)
+          M_KeyIsSourceId,       \* mechanism: entries are keyed by source id only (FALSE = mutant: inode must be unique too)
           M_NamesVerbatim,       \* mechanism: names are copied byte for byte (FALSE = mutant: name used as a format string)
           M_ZeroOffsetsWritten   \* mechanism: streams with offset 0 are written like any other (FALSE = mutant)
 
@@ -151,20 +158,24 @@ Offs == {0, 1, 63}                                          \* 0, 1, 2^63-1
 Job(f, ino, src, strs) == [file |-> f, inode |-> ino, src |-> src, streams |-> strs]
 Stream(n, o) == [name |-> n, off |-> o]
 
+\* no second job | an unrelated second job | a second job with the SAME inode under another source id (symlink)
+SecondJob(k, ino1) == CASE k = 0 -> <<>>
+                        [] k = 1 -> <<Job(<<1>>, 2, 2, <<Stream(<<1>>, 2)>>)>>
+                        [] k = 2 -> <<Job(<<1, 3, 1>>, ino1, 2, <<Stream(<<1>>, 2)>>)>>
 StructTables ==      \* the structural alphabet, exhaustively
-  { [jobs |-> <<Job(f, big, big, s1)>> \o j2] :
+  { [jobs |-> <<Job(f, big, big, s1)>> \o SecondJob(k2, big)] :
       f \in FileNames, big \in {1, 64},
       s1 \in { <<Stream(n1, o1)>> : n1 \in Names1, o1 \in Offs }
              \cup { <<Stream(n1, o1), Stream(n2, o2)>> : n1 \in Names1, o1 \in Offs, n2 \in Names2, o2 \in {0, 1} }
              \cup { <<>> },
-      j2 \in { <<>>, <<Job(<<1>>, 2, 2, <<Stream(<<1>>, 2)>>)>> } }
+      k2 \in {0, 1, 2} }
 ExtraTables ==       \* byte transparency: every extra stream name x every file name, every extra file name
-  { [jobs |-> <<Job(f, big, big, s1)>> \o j2] :
+  { [jobs |-> <<Job(f, big, big, s1)>> \o SecondJob(k2, big)] :
       f \in FileNames \cup ExtraFileNames, big \in {1, 64},
       s1 \in { <<Stream(n1, o1)>> : n1 \in ExtraNames, o1 \in Offs }
              \cup { <<Stream(n1, 1), Stream(n2, 1)>> : n1 \in ExtraNames, n2 \in {<<1>>, <<37, 100>>} }
              \cup { <<Stream(<<1>>, 1)>> },
-      j2 \in { <<>>, <<Job(<<1>>, 2, 2, <<Stream(<<1>>, 2)>>)>> } }
+      k2 \in {0, 1, 2} }
 Tables == StructTables \cup ExtraTables
 
 \* a SliceMap holds each stream name once
@@ -245,15 +256,16 @@ ParseOne(c, srcs) ==
   IF src.n \in srcs THEN Err ELSE
   IF ts.val # <<>> /\ ~ParseInt(ts.val).ok THEN Err ELSE
   LET st == ParseStreams(ts.rest) IN IF ~st.ok THEN Err ELSE
-  [ok |-> TRUE, src |-> src.n, file |-> f.val, streams |-> st.streams, rest |-> st.rest]
+  [ok |-> TRUE, src |-> src.n, ino |-> ino.n, file |-> f.val, streams |-> st.streams, rest |-> st.rest]
 
-RECURSIVE ParseAll(_, _)
-ParseAll(c, acc) ==
+RECURSIVE ParseAll(_, _, _)
+ParseAll(c, acc, inos) ==
   IF c = <<>> THEN [ok |-> TRUE, table |-> acc]
   ELSE LET one == ParseOne(c, {e.src : e \in acc}) IN
        IF ~one.ok THEN Err
-       ELSE ParseAll(one.rest, acc \cup {[src |-> one.src, streams |-> one.streams]})
-Parse(c) == ParseAll(c, {})
+       ELSE IF ~M_KeyIsSourceId /\ one.ino \in inos THEN Err                          \* mutant only
+       ELSE ParseAll(one.rest, acc \cup {[src |-> one.src, streams |-> one.streams]}, inos \cup {one.ino})
+Parse(c) == ParseAll(c, {}, {})
 
 -----------------------------------------------------------------------------
 (* declarative side *)
